@@ -81,9 +81,10 @@ func decodeSubscription(k string, v []byte) (e Subscription, err error) {
 		err = binary.Unmarshal(v, &e)
 	}
 
-	// Decode the key, which starts with the peer and the connection
+	// Decode the key, which starts with the peer and the connection, followed by
+	// the SSID which has at least one part (the contract)
 	buffer := binary.ToBytes(k)
-	if len(buffer) < 16 {
+	if len(buffer) < 20 {
 		return e, io.ErrUnexpectedEOF
 	}
 
